@@ -31,6 +31,18 @@ class Prop(BaseProp):
                 out.append({"name": "dd", "cases": cases, "env": ddgen.env_of(cfg)})
         return out + sessgen.streams(rng, tier)
 
+    def search_streams(self, rng, tier):
+        # xorbs of one or two chunks (a one-chunk xorb is named by its chunk's hash), the same files uploaded again by a session
+        # that starts cold: its lookups go to the shard files of the first session (seed C02-r4m1: the on-disk lookup reads one
+        # entry past a xorb's chunk list -- the header of the next xorb, which for a one-chunk xorb equals a chunk hash)
+        env = {"HF_XET_TARGET_CHUNK_SIZE": "1024", "HF_XET_MAX_XORB_BYTES": "2048", "HF_XET_MAX_XORB_CHUNKS": "40",
+               "HF_XET_NRANGES_IN_STREAMING_FRAGMENTATION_ESTIMATOR": "8", "XET_VERIF_SKIP_SHARD_INTEGRITY_CHECK": "1"}
+        cases = []
+        for i in range(24):
+            n = rng.randrange(6000, 40000)
+            cases.append({"id": "ru%d" % i, "text": "S | f a%d %d:%d all | E | M | S | f b%d %d:%d all | E | D" % (i, 100 + i, n, i, 100 + i, n), "meta": {"cfg": 9}})
+        return [{"name": "sess", "cases": cases, "env": env, "model": False, "timeout": 1200}]
+
     def nontrivial(self, stream, case, io):
         if stream == "dd":
             return hashlib.sha256(case["text"].encode()).hexdigest() if case["text"].count(":") >= 5 else None
